@@ -30,13 +30,13 @@ theorem write_quiet {st : SState} (h : Quiet st) (k b : Nat) (ply depth : Int) (
 def legalAny (g : Game P) (p : P) (l : List Move) : Bool := l.any fun m => (g.push p m).isSome
 
 /-- The explored legal children, in list order. -/
-def kids (g : Game P) (ex : Explore) (p : P) (l : List Move) : List P :=
-  l.filterMap fun m => if ex.pick m then g.push p m else none
+def kids (g : Game P) (ex : P → Explore) (p : P) (l : List Move) : List P :=
+  l.filterMap fun m => if (ex p).pick m then g.push p m else none
 
 def maxR (x : Int) (l : List Int) : Int := l.foldl Max.max x
 
 /-- Ranks of the lifted child values. -/
-def kidsR (g : Game P) (ex : Explore) (p : P) (vc : P → Score) (l : List Move) : List Int :=
+def kidsR (g : Game P) (ex : P → Explore) (p : P) (vc : P → Score) (l : List Move) : List Int :=
   (kids g ex p l).map fun c => rank (lift (vc c))
 
 theorem maxR_ge (l : List Int) (x : Int) : x ≤ maxR x l := by
@@ -53,16 +53,16 @@ theorem maxR_max (l : List Int) (x a : Int) : maxR (Max.max a x) l = Max.max a (
   | nil => simp
   | cons y ys ih => simp only [List.foldl]; rw [← ih]; congr 1; omega
 
-theorem kidsR_none {g : Game P} {ex : Explore} {p : P} {vc : P → Score} {m : Move} {rest : List Move}
+theorem kidsR_none {g : Game P} {ex : P → Explore} {p : P} {vc : P → Score} {m : Move} {rest : List Move}
     (h : g.push p m = none) : kidsR g ex p vc (m :: rest) = kidsR g ex p vc rest := by
   simp [kidsR, kids, h]
 
-theorem kidsR_skip {g : Game P} {ex : Explore} {p : P} {vc : P → Score} {m : Move} {rest : List Move}
-    (h : ex.pick m = false) : kidsR g ex p vc (m :: rest) = kidsR g ex p vc rest := by
+theorem kidsR_skip {g : Game P} {ex : P → Explore} {p : P} {vc : P → Score} {m : Move} {rest : List Move}
+    (h : (ex p).pick m = false) : kidsR g ex p vc (m :: rest) = kidsR g ex p vc rest := by
   simp [kidsR, kids, h]
 
-theorem kidsR_pick {g : Game P} {ex : Explore} {p : P} {vc : P → Score} {m : Move} {rest : List Move} {c : P}
-    (h : g.push p m = some c) (hp : ex.pick m = true) :
+theorem kidsR_pick {g : Game P} {ex : P → Explore} {p : P} {vc : P → Score} {m : Move} {rest : List Move} {c : P}
+    (h : g.push p m = some c) (hp : (ex p).pick m = true) :
     kidsR g ex p vc (m :: rest) = rank (lift (vc c)) :: kidsR g ex p vc rest := by
   simp [kidsR, kids, h, hp]
 
@@ -72,19 +72,19 @@ theorem legalAny_cons (g : Game P) (p : P) (m : Move) (rest : List Move) :
 
 /-! ## equations of `abLoop` -/
 
-theorem abLoop_none {g : Game P} {ex : Explore} {rec} {p : P} {b : Score} {m : Move} {rest : List Move}
+theorem abLoop_none {g : Game P} {ex : P → Explore} {rec} {p : P} {b : Score} {m : Move} {rest : List Move}
     {a : Score} {pv : List Move} {hl : Bool} {st : SState} (h : g.push p m = none) :
     abLoop g ex rec p b (m :: rest) a pv hl st = abLoop g ex rec p b rest a pv hl st := by
   simp [abLoop, childOf, h]
 
-theorem abLoop_skip {g : Game P} {ex : Explore} {rec} {p : P} {b : Score} {m : Move} {rest : List Move}
-    {a : Score} {pv : List Move} {hl : Bool} {st : SState} {c : P} (h : g.push p m = some c) (hp : ex.pick m = false) :
+theorem abLoop_skip {g : Game P} {ex : P → Explore} {rec} {p : P} {b : Score} {m : Move} {rest : List Move}
+    {a : Score} {pv : List Move} {hl : Bool} {st : SState} {c : P} (h : g.push p m = some c) (hp : (ex p).pick m = false) :
     abLoop g ex rec p b (m :: rest) a pv hl st =
       if cutoff a b then (a, pv, true, true, st) else abLoop g ex rec p b rest a pv true st := by
   simp [abLoop, childOf, h, hp]
 
-theorem abLoop_pick {g : Game P} {ex : Explore} {rec} {p : P} {b : Score} {m : Move} {rest : List Move}
-    {a : Score} {pv : List Move} {hl : Bool} {st : SState} {c : P} (h : g.push p m = some c) (hp : ex.pick m = true) :
+theorem abLoop_pick {g : Game P} {ex : P → Explore} {rec} {p : P} {b : Score} {m : Move} {rest : List Move}
+    {a : Score} {pv : List Move} {hl : Bool} {st : SState} {c : P} (h : g.push p m = some c) (hp : (ex p).pick m = true) :
     abLoop g ex rec p b (m :: rest) a pv hl st =
       (let r := rec c (childBound b) (childBound a) st
        let s := lift r.1
@@ -148,7 +148,7 @@ theorem step_pick {rec : P → Score → Score → SState → Score × List Move
   exact ⟨hq, hrok, hpath, ha'ok, ha'r, hless, kp, ki, kr⟩
 
 /-- Loop invariant of `abLoop` for an arbitrary move list. -/
-theorem abLoop_spec {g : Game P} {ex : Explore} {rec} {p : P} {n : Nat} {vc : P → Score}
+theorem abLoop_spec {g : Game P} {ex : P → Explore} {rec} {p : P} {n : Nat} {vc : P → Score}
     {pathc : P → Score → List Move → Prop} (H : RecOK n vc pathc rec) (hn : n ≤ 126) {b : Score} (hb : okN (n + 1) b) :
     ∀ (l : List Move) (a : Score) (pv : List Move) (hl : Bool) (st : SState), okN (n + 1) a → Quiet st →
     ∀ res, abLoop g ex rec p b l a pv hl st = res →
@@ -159,7 +159,7 @@ theorem abLoop_spec {g : Game P} {ex : Explore} {rec} {p : P} {n : Nat} {vc : P 
           rank b ≤ rank res.1 ∧ rank res.1 ≤ maxR (rank a) (kidsR g ex p vc l))) ∧
       (rank b ≤ rank a → rank b ≠ -1099511627776 → rank res.1 ≤ maxR (rank a) (kidsR g ex p vc l)) ∧
       ((res.2.1 = pv ∧ res.1 = a) ∨
-        ∃ m c s rem, res.2.1 = m :: rem ∧ m ∈ l ∧ g.push p m = some c ∧ ex.pick m = true ∧ pathc c s rem ∧
+        ∃ m c s rem, res.2.1 = m :: rem ∧ m ∈ l ∧ g.push p m = some c ∧ (ex p).pick m = true ∧ pathc c s rem ∧
           okN n s ∧ res.1 = lift s ∧ rank res.1 ≤ rank (lift (vc c))) := by
   intro l
   induction l with
@@ -181,7 +181,7 @@ theorem abLoop_spec {g : Game P} {ex : Explore} {rec} {p : P} {n : Nat} {vc : P 
     | some c =>
       rw [legalAny_cons, hpush]
       simp only [Option.isSome_some, Bool.true_or, Bool.or_true]
-      cases hp : ex.pick m with
+      cases hp : (ex p).pick m with
       | false =>
         rw [abLoop_skip hpush hp] at hres
         rw [kidsR_skip hp]
